@@ -456,3 +456,85 @@ func c01R33(ic *IC, r *Report) {
 	r.Check(ok, "R01.33", "_return/single-operand/can-set-several-results", ic.pos(one.Pos()), "a closure of the single-operand case stores the results by a variable index",
 		"with one operand _return only stores f.data[0]: when the operand is a call returning several values whose first type is not identical to the first result type (so that the call does not store directly), only the first value is returned - type IS []int; func g() (IS, int) { return f() } yields [1 2] 0")
 }
+
+func init() {
+	ruleText["R01.34"] = "a declared function used as a value is turned into a function value wherever it reaches a func-typed destination: (a) in _return the case of func-typed results installs a generator that wraps declared functions (genFuncValue / genFunctionWrapper), not the plain value generator; (b) the test 'the type was written in a function declaration' (isNamedFuncSrc), which a return statement invalidates by re-pointing the node of the shared function type, is consulted only through the node-based predicate that also looks at the symbol"
+}
+
+// c01R34: found through the round-6 report on C07 (item 1). return double (a declared
+// function) panicked in reflect.Set (*interp.node is not assignable to func(int) int), and once
+// such a return had been compiled f = double, S{double} and []func(int) int{double} panicked too:
+// cfg re-points double's type node to the operand of the return statement.
+func c01R34(ic *IC, r *Report) {
+	info := ic.Info
+	fi := ic.fn(r, "_return")
+	if fi == nil {
+		return
+	}
+	// (a)
+	found := false
+	ast.Inspect(fi.Decl.Body, func(q ast.Node) bool {
+		cc, ok := q.(*ast.CaseClause)
+		if !ok {
+			return true
+		}
+		isFuncT := false
+		for _, e := range cc.List {
+			if id := identOf(e); id != nil {
+				if c, ok := info.Uses[id].(*types.Const); ok && c.Name() == "funcT" {
+					isFuncT = true
+				}
+			}
+		}
+		if !isFuncT {
+			return true
+		}
+		found = true
+		wraps := len(callsIn(info, cc, true, "interp.genFuncValue", "interp.genFunctionWrapper", "interp.genValueAsFunctionWrapper")) > 0
+		plain := len(callsIn(info, cc, true, "interp.genValue")) > 0
+		r.Check(wraps && !plain, "R01.34", "_return/func-typed-result/declared-function-wrapped", ic.pos(cc.Pos()), "func-typed results go through the wrapping generator",
+			"for a func-typed result _return installs the plain value generator: a declared function is a *node there, so return double (func named() func(int) int { return double }) panics in reflect.Set - value of type *interp.node is not assignable to type func(int) int")
+		return true
+	})
+	if !found {
+		r.Errorf("R01.34: the case of func-typed results was not found in _return")
+	}
+	// (b)
+	var target *types.Func
+	for f := range ic.G.Funcs {
+		if f.Name() == "isNamedFuncSrc" {
+			target = f
+		}
+	}
+	if target == nil {
+		r.Pass("R01.34", "package/type-node-test-not-used-alone", "", "the type-node test no longer exists")
+		return
+	}
+	var bad []string
+	for f, hd := range ic.G.Funcs {
+		if hd.Decl.Body == nil || f == target {
+			continue
+		}
+		for _, c := range allCalls(hd.Decl.Body) {
+			if calleeOf(info, c) != types.Object(target) {
+				continue
+			}
+			// accepted: inside a predicate on a node that also reads node.sym
+			readsSym := false
+			ast.Inspect(hd.Decl.Body, func(z ast.Node) bool {
+				if se, ok := z.(*ast.SelectorExpr); ok {
+					if v := selField(info, se); v != nil && v.Name() == "sym" {
+						readsSym = true
+					}
+				}
+				return true
+			})
+			if !readsSym || len(hd.Decl.Body.List) > 3 {
+				bad = append(bad, f.Name()+" at "+ic.pos(c.Pos()))
+			}
+		}
+	}
+	sort.Strings(bad)
+	r.Check(len(bad) == 0, "R01.34", "package/type-node-test-not-used-alone", ic.pos(ic.G.Funcs[target].Decl.Pos()), "isNamedFuncSrc is consulted only through the predicate that also looks at the symbol",
+		"the test that a function type was written in a function declaration is used alone in "+strings.Join(bad, ", ")+": cfg re-points the node of that (shared) type to the operand of a return statement, so after func named() func(int) int { return double } has been compiled, f = double, S{double} or []func(int) int{double} store the *node itself and panic in reflect")
+}
